@@ -317,3 +317,63 @@ def require_func(repo: Repo, qual: str) -> FuncInfo:
         return repo.func(qual)
     except AnalysisError:
         raise
+
+
+def feasible_reach(g: CFG, avoid: set[int], stable_preds: tuple[str, ...] = ("is_final()",)) -> set[int]:
+    """Nodes reachable from the entry over normal edges without passing a node of `avoid`,
+    tracking (a) boolean locals assigned constants and (b) the outcome of *stable* predicates
+    (tests whose text ends with one of stable_preds: once false->true they stay; we only use:
+    the same test text evaluated again on the same path gives the same answer unless a statement
+    in between may change it - for is_final() a True answer is permanent, a False answer is not).
+    Keeps infeasible combinations such as 'flag is False at its first test although it was just
+    initialised to False' or 'status is final at the guard but not final at the loop' out."""
+    seen: set[tuple[int, frozenset]] = set()
+    out: set[int] = set()
+    stack: list[tuple[int, frozenset]] = [(g.entry, frozenset())]
+
+    def test_value(node: ast.AST, facts: dict) -> bool | None:
+        if isinstance(node, ast.UnaryOp) and isinstance(node.op, ast.Not):
+            v = test_value(node.operand, facts)
+            return None if v is None else (not v)
+        if isinstance(node, ast.Name) and ("v:" + node.id) in facts:
+            return facts["v:" + node.id]
+        txt = ast.unparse(node)
+        if ("t:" + txt) in facts:
+            return facts["t:" + txt]
+        return None
+
+    while stack:
+        nid, fz = stack.pop()
+        if (nid, fz) in seen or nid in avoid:
+            continue
+        seen.add((nid, fz))
+        out.add(nid)
+        facts = dict(fz)
+        n = g.nodes[nid]
+        if n.kind == "stmt" and isinstance(n.ast, ast.Assign) and len(n.ast.targets) == 1 and isinstance(n.ast.targets[0], ast.Name):
+            nm = n.ast.targets[0].id
+            if isinstance(n.ast.value, ast.Constant) and isinstance(n.ast.value.value, bool):
+                facts["v:" + nm] = n.ast.value.value
+            else:
+                facts.pop("v:" + nm, None)
+        for s, lab in g.succ[nid]:
+            if lab == "exc":
+                continue
+            f2 = dict(facts)
+            if n.kind == "test" and n.ast is not None and lab in ("true", "false"):
+                want = lab == "true"
+                known = test_value(n.ast, facts)
+                if known is not None and known != want:
+                    continue  # infeasible edge
+                # remember stable predicate outcomes: only the permanent direction
+                inner = n.ast
+                neg = False
+                while isinstance(inner, ast.UnaryOp) and isinstance(inner.op, ast.Not):
+                    inner, neg = inner.operand, not neg
+                txt = ast.unparse(inner)
+                if any(txt.endswith(p) for p in stable_preds):
+                    val = want != neg
+                    if val:  # True is permanent (final statuses are absorbing)
+                        f2["t:" + txt] = True
+            stack.append((s, frozenset(f2.items())))
+    return out
